@@ -3,6 +3,7 @@ import Mathlib.Data.List.Basic
 import Mathlib.Tactic.Linarith
 import BioscrapeModel.Model.ModelState
 import BioscrapeModel.Model.Random
+import BioscrapeModel.Model.CreateVectors
 import BioscrapeModel.Properties.C05
 
 /-
@@ -258,5 +259,80 @@ theorem seed_overwrites (s : UInt64) : (MT.seed s).mt.size = 312 ∧ (MT.seed s)
 /-! ### Non-vacuity -/
 example : ((MState.empty (α := ℚ)).addSpecies "A").species = ["A"] := by decide
 example : (paramDest (α := ℚ) ⟨-1, .assign true 3 (.const 1)⟩) = some 3 := rfl
+
+/-! ### `_create_vectors`: every container the simulators read is rebuilt from the definition on every initialisation -/
+section createVectors
+open Bioscrape.CreateVectors Bioscrape.Generated
+
+/-- what a run leaves in container `n` depends only on what `n` held before. -/
+theorem runOps_local {I : Type} (ops : List (String × String)) (out : Nat → List I) (i : Nat) (st st' : Store I) (n : String)
+    (h : st n = st' n) : runOps ops out i st n = runOps ops out i st' n := by
+  induction ops generalizing i st st' with
+  | nil => exact h
+  | cons o rest ih =>
+    obtain ⟨k, m⟩ := o
+    simp only [runOps]
+    apply ih
+    by_cases hmn : n = m
+    · subst hmn
+      by_cases hw : isWipe k = true
+      · simp [hw]
+      · by_cases hf : isFill k = true
+        · simp [hw, hf, h]
+        · simp [hw, hf, h]
+    · by_cases hw : isWipe k = true
+      · simp [hw, Store.set_other _ _ _ _ hmn, h]
+      · by_cases hf : isFill k = true
+        · simp [hw, hf, Store.set_other _ _ _ _ hmn, h]
+        · simp [hw, hf, h]
+
+/-- **a container that is wiped before it is filled ends up with the same contents whatever it held before**: the items
+its loops produce from the definition lists, in order — no leftovers of an earlier initialisation, nothing twice. -/
+theorem rebuilt_independent {I : Type} (ops : List (String × String)) (out : Nat → List I) (i : Nat) (st st' : Store I)
+    (n : String) (h : wipedFirst ops n = true) : runOps ops out i st n = runOps ops out i st' n := by
+  induction ops generalizing i st st' with
+  | nil => simp [wipedFirst] at h
+  | cons o rest ih =>
+    obtain ⟨k, m⟩ := o
+    simp only [wipedFirst] at h
+    simp only [runOps]
+    by_cases hmn : m = n
+    · subst hmn
+      simp only [if_true] at h
+      by_cases hw : isWipe k = true
+      · apply runOps_local
+        simp [hw]
+      · simp only [hw] at h
+        by_cases hf : isFill k = true
+        · simp [hf] at h
+        · simp only [hf] at h
+          simp only [hw, hf]
+          exact ih (i + 1) st st' (by simpa using h)
+    · simp only [hmn, if_false] at h
+      exact ih (i + 1) _ _ h
+
+/-- every filled container of a program that meets the obligation is rebuilt independently of its old contents. -/
+theorem program_rebuilds {I : Type} (p : VecProgram) (hp : programOk p = true) (out : Nat → List I) (st st' : Store I)
+    (k n : String) (hn : (k, n) ∈ p.ops) (hk : isFill k = true) :
+    runOps p.ops out 0 st n = runOps p.ops out 0 st' n := by
+  unfold programOk at hp
+  simp only [Bool.and_eq_true, List.all_eq_true, List.mem_filter] at hp
+  exact rebuilt_independent p.ops out 0 st st' n (hp.2 (k, n) ⟨hn, hk⟩)
+
+/-- the obligations, regenerated from `bioscrape/types.pyx` and `lineage/lineage.pyx`. -/
+theorem programOk_Model : programOk (programOf "Model") = true := by decide +kernel
+theorem programOk_LineageModel : programOk (programOf "LineageModel") = true := by decide +kernel
+
+/-- the delay vector and the lineage rule vectors are among the rebuilt containers. -/
+example : ("push", "c_delays") ∈ (programOf "Model").ops := by decide +kernel
+example : ("push", "c_division_rules") ∈ (programOf "LineageModel").ops := by decide +kernel
+
+/-- a program that fills a vector it never wipes (the shape of two seeded changes and of the pinned tree's lineage
+defect) does not meet the obligation, and its result does depend on the old contents. -/
+example : programOk { cls := "x", ops := [("clear", "c_propensities"), ("push", "c_propensities"), ("push", "c_delays")] } = false := by
+  decide +kernel
+example : runOps [("push", "c_delays")] (fun _ => [7]) 0 (fun _ => [1]) "c_delays" = [1, 7] := by decide +kernel
+
+end createVectors
 
 end Bioscrape.C08
